@@ -1,0 +1,29 @@
+//go:build verif
+
+package peering
+
+import (
+	"net"
+
+	"github.com/mycoria/mycoria/m"
+)
+
+// VerifSetupLink runs the shipped link setup on a caller-supplied connection.
+// It is exactly what the protocol implementations do after dialing.
+func (p *Peering) VerifSetupLink(conn net.Conn, peeringURL *m.PeeringURL, outgoing bool) (Link, error) {
+	newLink := newLinkBase(conn, peeringURL, outgoing, p)
+	link, err := newLink.handleSetup(p.mgr)
+	if err != nil {
+		return nil, err
+	}
+	return link, nil
+}
+
+// VerifStartListener starts the shipped listener workers on a caller-supplied
+// net.Listener. It is exactly what the protocol implementations do after binding.
+func (p *Peering) VerifStartListener(id string, ln net.Listener, peeringURL *m.PeeringURL) Listener {
+	newListener := newListenerBase(id, ln, peeringURL, p)
+	newListener.startWorkers()
+	p.AddListener(newListener.id, newListener)
+	return newListener
+}
